@@ -75,11 +75,20 @@ pub struct MtWorld {
     sent: Vec<SentSignal>,
     pub deadlock: bool,
     pub active: bool,
+    /// the debugger has let the process go (PTRACE_DETACH seen): the harness schedules alone
+    pub detached: bool,
+    pub detach_report: Option<Vec<String>>,
+    bin: String,
     sig_budget: usize,
     sig_kinds: Vec<i32>,
     p_race: usize,
     p_deliver: usize,
     p_signal: usize,
+    p_detach: usize,
+    watch_heavy: bool,
+    /// threads (idx) that were in focus when a breakpoint was created after start
+    bp_creators: Vec<usize>,
+    last_stop_worker: bool,
     in_group_stop_calls: u64,
     /// signal-delivery-stops the debugger has been told about and not yet answered: (tid, sig)
     observed: Vec<(i32, i32)>,
@@ -136,13 +145,33 @@ impl MtWorld {
         }
     }
 
+    /// The task list of the debuggee.  Reading /proc/<pid>/task while a task exits can skip an
+    /// entry, so the listing is cross-checked against what the model knows (every registered
+    /// thread that has not been reaped must be listed) and read until two passes agree.
+    fn tasks_checked(&self) -> Vec<i32> {
+        let mut last = ns::tasks(self.pid);
+        for _ in 0..200 {
+            let again = ns::tasks(self.pid);
+            let complete = (0..self.nspawned.min(MAX_THREADS)).all(|i| {
+                let t = self.ctl.get(W_TID + i) as i32;
+                t == 0 || self.dead.contains(&t) || again.contains(&t)
+            });
+            if again == last && complete {
+                return again;
+            }
+            last = again;
+            std::thread::yield_now();
+        }
+        last
+    }
+
     /// Wait until every task of the debuggee is in a ptrace stop, dead, or asleep at its gate
     /// with nothing in flight.  No decision is taken in here.
     fn quiesce(&mut self) -> bool {
         let t0 = std::time::Instant::now();
         let mut spins = 0u64;
         loop {
-            let tasks = ns::tasks(self.pid);
+            let tasks = self.tasks_checked();
             let mut ok = true;
             for &t in &tasks {
                 let st = task_state(self.pid, t);
@@ -190,7 +219,7 @@ impl MtWorld {
                 continue;
             }
             let tid = self.ctl.get(W_TID + i) as i32;
-            if !self.resumed.contains(&tid) || self.dead.contains(&tid) || th.told_exit {
+            if (!self.detached && !self.resumed.contains(&tid)) || self.dead.contains(&tid) || th.told_exit {
                 continue;
             }
             if task_state(self.pid, tid) != 'S' || !self.parked(i) {
@@ -354,7 +383,7 @@ impl World for MtWorld {
             if self.p_signal > 0 && self.tape.chance(self.p_signal, 100) && self.maybe_signal() {
                 continue;
             }
-            let tasks = ns::tasks(self.pid);
+            let tasks = self.tasks_checked();
             let cand: Vec<i32> = tasks.iter().copied().filter(|&t| (pid == -1 || pid == t) && self.pending_event(t)).collect();
             let runnable = self.runnable();
             if !cand.is_empty() && (runnable.is_empty() || self.tape.chance(self.p_deliver, 100)) {
@@ -414,6 +443,39 @@ impl World for MtWorld {
     }
 
     fn before_ptrace(&mut self, req: u32, pid: i32, _addr: u64, _data: u64) {
+        if req == seam::PTRACE_DETACH && self.detach_report.is_none() && self.pid > 0 {
+            // the instant the process is let go: its code must be the file's code, no thread may
+            // carry an enabled debug register
+            let mut rep = vec![];
+            for m in ns::maps(self.pid).iter().filter(|m| m.perms.contains('x') && m.path == self.bin) {
+                let Ok(file) = std::fs::read(&m.path) else { continue };
+                let len = (m.end - m.start) as usize;
+                let Some(mem) = ns::read_mem(self.pid, m.start, len) else { continue };
+                let off = m.offset as usize;
+                if off >= file.len() {
+                    continue;
+                }
+                let cmp = len.min(file.len() - off);
+                for k in 0..cmp {
+                    if mem[k] != file[off + k] {
+                        let a = m.start + k as u64;
+                        let site = self.site_addr.iter().position(|x| *x == a).map(|k| format!(" (site{k})")).unwrap_or_default();
+                        rep.push(format!("text byte +{:#x}{site} is {:#04x}, file has {:#04x}", a - 0x5555_5555_4000, mem[k], file[off + k]));
+                        if rep.len() > 8 {
+                            break;
+                        }
+                    }
+                }
+            }
+            for t in ns::tasks(self.pid) {
+                if let Ok(dr7) = raw::peek(seam::PTRACE_PEEKUSER, t, DR_OFFSET + 8 * 7) {
+                    if dr7 & 0xff != 0 {
+                        rep.push(format!("DR7 of {} is {dr7:#x}", self.name(t)));
+                    }
+                }
+            }
+            self.detach_report = Some(rep);
+        }
         if !self.active || !self.registered() || self.deadlock {
             return;
         }
@@ -673,6 +735,11 @@ impl Driver {
             std::thread::yield_now();
         }
         w(|w| bump(&mut w.stats, "c09.stops_checked"));
+        let stop_tid = match reason {
+            StopReason::Breakpoint(p, _) | StopReason::SignalStop(p, _) => p.as_raw(),
+            _ => 0,
+        };
+        w(|w| w.last_stop_worker = w.idx_of(stop_tid).map(|i| i != 0).unwrap_or(false));
         if !bad.is_empty() {
             let d = w(|w| bad.iter().map(|(t, s)| format!("{} state {s}{}", w.name(*t), w.idx_of(*t).map(|i| if w.parked(i) { " (asleep at its gate, not stopped)" } else { "" }).unwrap_or(""))).collect::<Vec<_>>().join(", "));
             w(|w| w.violate("C09", "not_all_stopped", format!("at reported stop {reason:?}: {d}")));
@@ -881,11 +948,18 @@ pub fn run(spec: &WorkerSpec) -> WorkerResult {
         sent: vec![],
         deadlock: false,
         active: true,
+        detached: false,
+        detach_report: None,
+        bin: spec.bin.clone(),
         sig_budget,
         sig_kinds,
         p_race,
         p_deliver,
         p_signal,
+        p_detach: if prop == "C11" { 8 } else if prop == "C09" { 2 } else { 0 },
+        watch_heavy: prop == "C14",
+        bp_creators: vec![],
+        last_stop_worker: false,
         in_group_stop_calls: 0,
         observed: vec![],
         suppressed: vec![],
@@ -907,6 +981,7 @@ pub fn run(spec: &WorkerSpec) -> WorkerResult {
     let mut started = false;
     let mut ops = 0usize;
     let mut exited = false;
+    let mut detached = false;
     // before start: arm some sites
     let pre = 1 + w(|w| w.tape.choose(3));
     let mut plan: Vec<u8> = vec![];
@@ -922,8 +997,13 @@ pub fn run(spec: &WorkerSpec) -> WorkerResult {
             plan.remove(0);
             k
         } else {
-            // 0 arm, 1 disarm, 2..6 continue, 7 watch add/remove, 8 stepi at site
-            w(|w| [0u8, 0, 1, 2, 2, 2, 2, 2, 2, 7, 8, 8][w.tape.choose(12)])
+            // 0 arm, 1 disarm, 2..6 continue, 7 watch add/remove, 8 stepi at site, 10 detach
+            w(|w| {
+                let k = if w.p_detach >= 5 && w.last_stop_worker && w.tape.chance(1, 2) {
+                    0
+                } else if w.watch_heavy { [0u8, 0, 1, 2, 2, 2, 2, 7, 7, 7, 7, 8][w.tape.choose(12)] } else { [0u8, 0, 1, 2, 2, 2, 2, 2, 2, 7, 8, 8][w.tape.choose(12)] };
+                if w.p_detach > 0 && w.step >= 6 && w.tape.chance(w.p_detach, 100) { 10 } else { k }
+            })
         };
         w(|w| {
             w.step = ops;
@@ -939,6 +1019,36 @@ pub fn run(spec: &WorkerSpec) -> WorkerResult {
                     continue;
                 }
                 let a = site_addr[k];
+                let by_fn = w(|w| w.tape.chance(if w.p_detach >= 5 { 2 } else { 1 }, 3));
+                if by_fn {
+                    // by function name: accepted when it denotes exactly the site instruction
+                    let r = dbg.set_breakpoint_at_fn(&format!("site{k}")).map(|v| v.iter().map(|b| (b.number, match b.addr { bugstalker::debugger::address::Address::Relocated(r) => r.as_u64(), bugstalker::debugger::address::Address::Global(g) => 0x5555_5555_4000 + u64::from(g) })).collect::<Vec<_>>());
+                    match r {
+                        Ok(v) if v.len() == 1 && v[0].1 == a => {
+                            d.bp_nums[k] = Some(v[0].0);
+                            let focus = dbg.ecx().pid_on_focus().as_raw();
+                            w(|w| {
+                                w.armed[k] = true;
+                                if let (true, Some(i)) = (started, w.idx_of(focus)) {
+                                    if i != 0 {
+                                        bump(&mut w.stats, "c11.breakpoint_created_with_worker_thread_in_focus");
+                                        w.bp_creators.push(i);
+                                    }
+                                }
+                                bump(&mut w.stats, "c09.armed_by_function_name");
+                                w.logf(format!("{ops:3} arm site{k} (by function name)"));
+                            });
+                        }
+                        Ok(v) => {
+                            // another address than the site instruction: not usable for the accounting
+                            let _ = dbg.remove_breakpoint_at_fn(&format!("site{k}"));
+                            w(|w| w.logf(format!("{ops:3} arm site{k} by name gave {} places: removed again", v.len())));
+                        }
+                        Err(e) => w(|w| w.logf(format!("{ops:3} arm site{k} by name -> Err({e})"))),
+                    }
+                    d.dbg = Some(dbg);
+                    continue;
+                }
                 match dbg.set_breakpoint_at_addr(RelocatedAddress::from(a)) {
                     Ok(v) => {
                         d.bp_nums[k] = Some(v.number);
@@ -1037,6 +1147,25 @@ pub fn run(spec: &WorkerSpec) -> WorkerResult {
                     continue;
                 }
             }
+            10 => {
+                if !started {
+                    d.dbg = Some(dbg);
+                    continue;
+                }
+                let r = dbg.detach();
+                w(|w| {
+                    w.detached = true;
+                    w.active = false;
+                    bump(&mut w.stats, "c11.mt_detach");
+                    if w.bp_creators.iter().any(|i| w.threads[*i].told_exit) {
+                        bump(&mut w.stats, "c11.detach_after_breakpoint_creator_thread_exited");
+                    }
+                    w.logf(format!("{ops:3} detach -> {}", if r.is_ok() { "ok".to_string() } else { format!("Err({})", r.as_ref().err().unwrap()) }));
+                });
+                d.dbg = Some(dbg);
+                detached = true;
+                break;
+            }
             _ => {
                 // start / continue
                 let r = if !started { dbg.start_debugee_with_reason() } else { dbg.continue_debugee_with_reason() };
@@ -1086,7 +1215,7 @@ pub fn run(spec: &WorkerSpec) -> WorkerResult {
     }
     // run to completion (bounded)
     let mut extra = 0;
-    while !exited && extra < 200 && w(|w| w.harness_error.is_none()) {
+    while !exited && !detached && extra < 200 && w(|w| w.harness_error.is_none()) {
         extra += 1;
         ops += 1;
         w(|w| {
@@ -1127,6 +1256,71 @@ pub fn run(spec: &WorkerSpec) -> WorkerResult {
         }
         d.drain_output();
     }
+    let mut detached_status: Option<i32> = None;
+    if detached {
+        // C11: the released process runs on, with original code, to its normal end.  The
+        // harness alone releases the gates now (same tape).
+        let rep = w(|w| w.detach_report.take());
+        match rep {
+            Some(r) if r.is_empty() => w(|w| bump(&mut w.stats, "c11.mt_detach_clean")),
+            Some(r) => w(|w| w.violate("C02", "patch_left_at_detach", r.join("; "))),
+            None => w(|w| w.violate("C11", "no_detach_syscall", "detach returned without PTRACE_DETACH".into())),
+        }
+        let t0 = std::time::Instant::now();
+        loop {
+            // threads that had exited before the detach are still this process's to reap (it was
+            // their tracer); the leader's status arrives once they are gone
+            let mut st = 0i32;
+            let r = raw::wait4(-1, &mut st, libc::WNOHANG | libc::__WALL);
+            if r == pid && (libc::WIFEXITED(st) || libc::WIFSIGNALED(st)) {
+                detached_status = Some(st);
+                break;
+            }
+            if r > 0 {
+                continue;
+            }
+            if t0.elapsed().as_secs() > 10 {
+                break;
+            }
+            let moved = w(|w| {
+                // every task must be asleep at its gate or gone before the next release
+                let tasks = w.tasks_checked();
+                let quiet = tasks.iter().all(|&t| {
+                    let st = ns::task_state(w.pid, t);
+                    matches!(st, 'Z' | 'X') || (st == 'S' && w.idx_of(t).map(|i| w.parked(i)).unwrap_or(false))
+                });
+                if !quiet {
+                    return false;
+                }
+                let r = w.runnable();
+                if r.is_empty() {
+                    return false;
+                }
+                let i = if r.len() == 1 { r[0] } else { r[w.tape.choose(r.len())] };
+                w.advance(i, "[after detach]");
+                true
+            });
+            if !moved {
+                std::thread::yield_now();
+            }
+        }
+        match detached_status {
+            Some(st) if libc::WIFEXITED(st) => {
+                exited = true;
+                d.exit = Some(libc::WEXITSTATUS(st));
+                w(|w| bump(&mut w.stats, "c11.mt_detached_process_completed"));
+            }
+            Some(st) => {
+                let sig = libc::WTERMSIG(st);
+                w(|w| w.violate("C11", "detached_process_died", format!("after detach the process was killed by signal {sig}")));
+            }
+            None => {
+                let snap: Vec<String> = ns::tasks(pid).iter().map(|&t| format!("{}:{}", w(|w| w.name(t)), ns::task_state(pid, t))).collect();
+                w(|w| w.violate("C11", "detached_process_stuck", format!("after detach the process does not finish: tasks {snap:?}")));
+                unsafe { libc::kill(pid, libc::SIGKILL) };
+            }
+        }
+    }
     w(|w| w.active = false);
     let dbg = d.dbg.take();
     drop(dbg);
@@ -1150,7 +1344,7 @@ pub fn run(spec: &WorkerSpec) -> WorkerResult {
                 wld.violate("C09", if ctr[k] < wld.site_execs[k] { "site_instruction_skipped" } else { "site_instruction_executed_twice" }, d);
             }
         }
-        if !wld.arrivals.is_empty() {
+        if !wld.arrivals.is_empty() && !wld.detached {
             let d = format!("arrivals at armed sites never reported as a stop: {:?} (thread, site)", wld.arrivals);
             wld.violate("C09", "arrival_not_reported", d);
         }
@@ -1188,11 +1382,11 @@ pub fn run(spec: &WorkerSpec) -> WorkerResult {
         let unrep: Vec<SentSignal> = wld.sent.iter().filter(|x| !QUIET.contains(&x.sig) && x.reported == 0 && !wld.tainted.contains(&(x.idx, x.sig)) && !wld.tainted_threads.contains(&x.idx)).cloned().collect();
         let (gs, other): (Vec<SentSignal>, Vec<SentSignal>) = unrep.into_iter().partition(|x| wld.seen_in_group_stop.contains(&(x.idx, x.sig)));
         let fmt = |v: &Vec<SentSignal>| v.iter().map(|x| format!("T{} sig {} ({})", x.idx, x.sig, x.how)).collect::<Vec<_>>();
-        if !gs.is_empty() {
+        if !gs.is_empty() && !wld.detached {
             let d = format!("non-quiet signals whose delivery-stop was consumed during a group stop were injected without ever being reported: {:?}", fmt(&gs));
             wld.violate("C10", "signal_seen_during_group_stop_never_reported", d);
         }
-        if !other.is_empty() {
+        if !other.is_empty() && !wld.detached {
             let d = format!("non-quiet signals delivered without a reported stop: {:?}", fmt(&other));
             wld.violate("C10", "signal_not_reported", d);
         }
